@@ -63,10 +63,23 @@ func run(prop, tier, repo, verif string, r *report.Ctx) (code int) {
 		r.Undecide("L", "load", "repository does not load / type-check: "+err.Error())
 		return r.Finish()
 	}
+	if os.Getenv("GV_WRITE_BASELINE") != "" {
+		// development aid: (re)write the anchor baseline from the tree under analysis
+		if err := p.WriteBaseline(verif + "/anchors.json"); err != nil {
+			fmt.Fprintln(os.Stderr, err)
+			return 2
+		}
+		return 0
+	}
+	p.UseBaseline(verif + "/anchors.json")
+	load.Current = p
 	e := &rules.Env{P: p, R: r, Tier: tier, Verif: verif}
 	if !rules.Run(prop, e) {
 		fmt.Fprintf(os.Stderr, "unknown property %q; known: %v\n", prop, rules.Props())
 		return 2
+	}
+	if len(p.Renamed) > 0 {
+		r.Analysed["anchors_recovered_after_rename"] = p.Renamed
 	}
 	return r.Finish()
 }
